@@ -38,8 +38,9 @@ def resolveKind (c : Json) : Json :=
 def processKind (c : Json) : Json :=
   let bs := getBytes c "req"
   let text := (stringOfBytes? bs).map String.toList
-  let req := text.bind Parse.parse
+  let req := text.bind requestReading
   let ns := getStr c "ns"
+  if (text.map requestAmbiguous).getD false then outOfDomain "two members of one object decode into the same field" else
   match Did.processOperation hashFam (oraclesOf c) ns text bs.length req with
   | none => .obj [("class", .str "err")]
   | some r =>
